@@ -7,3 +7,10 @@ package dedup
 
 // VerifSetYieldHook installs f as the hook called at every verifYield point (nil removes it).
 func VerifSetYieldHook(f func(point string)) { verifYieldHook = f }
+
+// VerifRCHoldLock takes the RequestCache's mutex and returns the function that releases it: the
+// driver queues two operations behind it (lock convoy) to check that their lock regions are atomic.
+func VerifRCHoldLock(c *RequestCache) func() {
+	c.mu.Lock()
+	return c.mu.Unlock
+}
